@@ -108,8 +108,8 @@ def run(ctx):
     cov["trusted_base"] = vlib.STD_TRUSTED + [
         "Section hypothesis of Properties/C17.v: every `range` over a Go map is some permutation of its entries (shuffles_ok); nothing else is assumed about iteration order",
         "content the handlers only compare (addresses, meta, ports, weights, proxy config, check output/definition) is one number per row: equal number <-> IsSame on that content (harness hash, 48 bits of SHA-256 of the JSON form; JSON drops the nil/empty distinction of omitempty containers, so every peer row of a generated state is produced by the handler itself, as in production, and local rows are never compared with received ones)",
-        "names are lower-case ASCII without NUL (memdb lower-cases every key component; strings.EqualFold is then plain equality); the peer name is not the local keyword \"~\"; service weights present and valid; no prepared-query upstreams",
-        "modelled, not verified: go-memdb (unique primary index = replace on insert, transaction abort on error), msgpack/protobuf round trips of the requests, the index table / watch channels, virtual-IP allocation (compared with the model only with the virtual-ips flag off; with the flag on the Go oracle projects the stamped address away), gateway-services (no gateway config entries in generated states), ACLs, the gRPC stream and its ACK/NACK framing, Enterprise partitions/namespaces",
+        "the MODEL takes names as lower-case ASCII without NUL (memdb lower-cases every key component; strings.EqualFold is then plain equality); names re-spelled in another letter case are generated in oracle-only worlds and judged by the Go oracle; the peer name is not the local keyword \"~\"; service weights present and valid; no prepared-query upstreams",
+        "modelled, not verified: go-memdb (unique primary index = replace on insert, transaction abort on error), msgpack/protobuf round trips of the requests, the index table / watch channels, virtual-IP allocation (compared with the model only with the virtual-ips flag off; with the flag on the Go oracle projects the stamped address away), gateway-services (outside the model; local wildcard gateways are seeded in the oracle-only worlds, where the frame oracle watches that table), ACLs, the gRPC stream and its ACK/NACK framing, Enterprise partitions/namespaces",
         "projected away by the frame oracle (shared by design): un-prefixed rows of the index table (table-wide watermarks over all peers), the free-virtual-ips allocator table",
     ]
     assumptions = ["Go map iteration is a permutation of the entries",
